@@ -178,7 +178,72 @@ func (e *panicEngine) prover(fn *ssa.Function) *core.Prover {
 		return n, ok
 	}
 	pv.Canon = core.StableLoads(fn, core.GetEff(e.p))
+	pv.Equiv = func(rel core.Rel) [][2]ssa.Value { return forwardedCallEquiv(e.p, fn, rel) }
 	return pv
+}
+
+// forwardedCallEquiv: under `w(x) != 0` (or > 0) where the module function w returns either the constant 0
+// or g(load of a field path of its parameter) — a nil-guarding size wrapper — the call w(x) equals every
+// call g(load of the same path of x) in fn: the wrapper forwarded, and both read the same unmodified field.
+func forwardedCallEquiv(p *core.Program, fn *ssa.Function, rel core.Rel) [][2]ssa.Value {
+	x, y := rel.X, rel.Y
+	if _, isC := x.(*ssa.Const); isC {
+		x, y = y, x
+	}
+	k, isC := core.ConstUint(y)
+	if !isC || k != 0 || !(rel.Op == token.NEQ || rel.Op == token.GTR) {
+		return nil
+	}
+	wc, ok := core.Strip(x).(*ssa.Call)
+	if !ok || len(wc.Call.Args) != 1 {
+		return nil
+	}
+	w := core.StaticCallee(wc)
+	if w == nil || !p.InModule(w) || w.Blocks == nil || len(w.Params) != 1 {
+		return nil
+	}
+	var inner *ssa.Function
+	path := ""
+	for _, ret := range core.Returns(w) {
+		if len(ret.Results) != 1 {
+			return nil
+		}
+		if z, ok := core.ConstUint(ret.Results[0]); ok && z == 0 {
+			continue
+		}
+		ic, ok := core.Strip(ret.Results[0]).(*ssa.Call)
+		if !ok || len(ic.Call.Args) != 1 || core.StaticCallee(ic) == nil {
+			return nil
+		}
+		root, pth, okP := valueAccessPath(ic.Call.Args[0])
+		if !okP || !rootIsParam0(root, w) {
+			return nil
+		}
+		ps := strings.Join(pth, ".")
+		if inner != nil && (inner != core.StaticCallee(ic) || ps != path) {
+			return nil
+		}
+		inner, path = core.StaticCallee(ic), ps
+	}
+	if inner == nil {
+		return nil
+	}
+	rootX, pathX, okX := valueAccessPath(wc.Call.Args[0])
+	if !okX || len(pathX) != 0 {
+		return nil
+	}
+	var out [][2]ssa.Value
+	for _, c := range core.Calls(fn) {
+		cc, ok := c.(*ssa.Call)
+		if !ok || core.StaticCallee(cc) != inner || len(cc.Call.Args) != 1 {
+			continue
+		}
+		r2, p2, ok2 := valueAccessPath(cc.Call.Args[0])
+		if ok2 && r2 == rootX && strings.Join(p2, ".") == path {
+			out = append(out, [2]ssa.Value{wc, cc})
+		}
+	}
+	return out
 }
 
 func isIntType(t types.Type) bool {
